@@ -2,6 +2,7 @@
 //! usage: fv <ID> [--tier quick|thorough] [--seed N] [--case N] [--replay file]
 mod c01;
 mod c02;
+mod c04;
 mod c08;
 mod c10;
 mod c13;
@@ -78,6 +79,7 @@ fn main() {
     let code = match id.as_str() {
         "C01" => c01::run(mk("C01")),
         "C02" => c02::run(mk("C02")),
+        "C04" => c04::run(mk("C04")),
         "C08" => c08::run(mk("C08")),
         "C10" => c10::run(mk("C10")),
         "C13" => c13::run(mk("C13")),
